@@ -661,6 +661,8 @@ def structural_faults(base, rng):
         # unknown tag
         bad = rng.choice(["foo", "defx", "Def", "blok"])
         add("unknown-tag", _rep(src, s0 + 2, s0 + 2 + len(kw), bad), s0, tag=kw)
+        # a tag name with more than one colon (CompileException since /repo b7eeddc)
+        add("invalid-tag-name", _rep(src, s0 + 2, s0 + 2 + len(kw), rng.choice(["ns:", "a.b:"]) + kw + ":x"), s0, tag=kw)
         # illegal attribute
         add("illegal-attribute", _ins(src, s0 + 2 + len(kw), " bogus='1'"), s0, tag=kw, multi_tag=t["multi_tag"])
         if t["attrs"]:
